@@ -271,8 +271,8 @@ def check_release(m, f, rule):
     if not out_stores:
         bad.append('the buffer is never reported through the out-parameter')
 
-    def region_ok(at_ins):
-        facts = pv.facts_at(at_ins)
+    def region_ok(at_ins, facts=None):
+        facts = facts if facts is not None else pv.facts_at(at_ins)
         ra_ok = ext_ok = un_ok = False
         for (op, x, y) in facts:
             xi, yi = f.get(x), f.get(y)
@@ -307,28 +307,25 @@ def check_release(m, f, rule):
         return ra_ok, ext_ok, un_ok
 
     n = 0
+    from ..facts import phi_leaves
     for s in out_stores:
-        v = f.get(s.o[0])
-        incoming = []
-        if v is not None and v.op == 'phi':
-            incoming = list(zip(v.o, v.x['bb']))
-        else:
-            incoming = [(s.o[0], None)]
-        for val, bb in incoming:
+        for val, lb, efacts in phi_leaves(f, pv.fc, s.o[0]):
             if val == 'null':
                 continue
             n += 1
-            vi = f.get(val)
+            vi = f.get(val) if isinstance(val, str) else None
             at_ins = vi if vi is not None else s
-            ra_ok, ext_ok, un_ok = region_ok(at_ins)
+            # the facts that matter are those of the path on which this value is the one reported (the phi's
+            # incoming edge), not those at the place the buffer pointer happened to be loaded
+            ra_ok, ext_ok, un_ok = region_ok(at_ins, efacts)
             miss = [t for t, ok in (('descriptor != NULL', ra_ok), ('buffer is external (buf != descriptor + 1)', ext_ok), ('cstl_shared_ptr_unique()', un_ok)) if not ok]
             if miss:
                 bad.append('a non-NULL buffer is handed back without %s' % ' / '.join(miss))
             # the object must be reset in that region
-            if vi is not None:
-                resets = [c for c in f.all_insts() if c.op == 'call' and c.callee in ('cstl_array_reset', 'cstl_shared_ptr_reset') and f.dominates(vi, c) and resolve_addr(f, c.o[0]).root == '$0']
-                if not resets:
-                    bad.append('the object keeps referring to the buffer after handing it back (no reset)')
+            resets = [c for c in f.all_insts() if c.op == 'call' and c.callee in ('cstl_array_reset', 'cstl_shared_ptr_reset') and resolve_addr(f, c.o[0]).root == '$0'
+                      and (f.dominates_block(c.block, lb) if lb is not None else (vi is not None and f.dominates(vi, c)))]
+            if not resets:
+                bad.append('the object keeps referring to the buffer after handing it back (no reset)')
     # modifications of the object only in the full region
     for c in f.all_insts():
         touches = False
